@@ -154,6 +154,9 @@ func writeEvidence(env Env, ch *Check, rep *Report, tier string, wall float64, n
 	}
 	data, _ := json.MarshalIndent(&ev, "", " ")
 	dir := filepath.Join(env.Dir, "evidence")
+	if d := os.Getenv("VERIF_EVIDENCE_DIR"); d != "" {
+		dir = d // self-tests against scratch copies must not overwrite the real evidence
+	}
 	os.MkdirAll(dir, 0o755)
 	tmp := filepath.Join(dir, ch.ID+".json.tmp")
 	os.WriteFile(tmp, append(data, '\n'), 0o644)
@@ -339,7 +342,7 @@ func Drive(ch *Check, tier string) int {
 		if perKind[v.Kind] >= 4 {
 			continue
 		}
-		if ch.Custom != nil && ch.One == nil {
+		if v.Confirmed || ch.Custom != nil && ch.One == nil {
 			// custom runners without a single-case monitor confirm their own findings
 			perKind[v.Kind]++
 			confirmed = append(confirmed, v)
@@ -408,6 +411,9 @@ func Drive(ch *Check, tier string) int {
 		return 0
 	}
 	rdir := filepath.Join(env.Dir, "replays", ch.ID)
+	if d := os.Getenv("VERIF_REPLAY_DIR"); d != "" {
+		rdir = filepath.Join(d, ch.ID)
+	}
 	os.MkdirAll(rdir, 0o755)
 	for i, v := range fresh {
 		if i >= 10 {
